@@ -32,7 +32,11 @@ def cases(seed, tier, shard, nshards):
     rng = random.Random(f'{seed}:C10:{tier}:{shard}')
     made = 0
     while made < SIZES[tier] // nshards:
-        c = MC.random_shared_case(rng, rng.choice([3, 6, 10, 16]), p_share=rng.choice([0.3, 0.6, 1.0]))
+        if rng.random() < 0.2:
+            # label-insensitive convention on inputs whose descriptor kinds alone determine the pairing
+            c = MC.random_shared_case(rng, rng.choice([6, 10, 16]), p_share=rng.choice([0.3, 0.6]), label_insensitive=True)
+        else:
+            c = MC.random_shared_case(rng, rng.choice([3, 6, 10, 16]), p_share=rng.choice([0.3, 0.6, 1.0]))
         if c is None:
             continue
         made += 1
@@ -45,7 +49,10 @@ def run(case):
     truth = MC.truth_from_json(case['truth'])
     sh = dict(case['shared'])
     txt = MC.case_text(sh)
-    res = MC.resolve_case(sh)
+    kw = {} if case.get('legacy', True) else {'legacy': False}
+    res = MC.resolve_case(sh, **kw)
+    if kw:
+        txt += ' (legacy=False)'
     if res['error']:
         viol.append(V('c10.shared_exception.' + res['error'].split(':')[0], f'{txt} raised {res["error"]}'))
     else:
@@ -78,7 +85,7 @@ def run(case):
             if own != want or frs != want or len(own) != len(d.get('fragid') or []):
                 viol.append(V('c10.membership', f'{txt}: fine atom {n} (generator atom {o}) belongs to coarse nodes {d.get("fragid")} = fragments {sorted(own)} / mapped from fragments {sorted(frs)}, expected {sorted(want)}'))
                 break
-    dis = MC.resolve_case(dict(case['disjoint']))
+    dis = MC.resolve_case(dict(case['disjoint']), **kw)
     dtxt = MC.case_text(case['disjoint'])
     if dis['error']:
         viol.append(V('c10.disjoint_exception', f'disjoint description {dtxt} raised {dis["error"]}'))
